@@ -68,6 +68,13 @@ PROBES = [
      None),
     (NOTHING + 'assign x 9 assign r [ nothing ] define fill with x begin '
      'assign x 5 return x end print [ fill r ] print x', [5, 9]),
+    # every call has its own parameters, however deep the calls go
+    ('define total with n begin if { n <= 0 } return 0 '
+     'return { n + [ total { n - 1 } ] } end assign n 5 '
+     'print [ total 300 ] print [ total 600 ] print n', [45150, 180300, 5]),
+    ('define count with n acc begin if { n <= 0 } return acc '
+     'return [ count { n - 1 } { acc + n } ] end assign acc 1 '
+     'print [ count 900 0 ] print acc', [405450, 1]),
     (NOTHING + 'assign x 9 define deep with x n begin if { n > 0 } begin '
      'return [ deep [ nothing ] { n - 1 } ] end assign x 2 return x end '
      'print [ deep 1 2 ] print x', [2, 9]),
@@ -86,7 +93,7 @@ def part_probes(ctx):
         got = [e[2] for e in r.log if e[0] == 'out' and e[1] == 'out']
         replay = {'kind': 'probe', 'script': text}
         if not r.accepted or r.stops or got != want:
-            ctx.violation('probe:valueless-argument',
+            ctx.violation('probe:call-semantics',
                           'printed {} expected {} {} {} | {}'.format(
                               got, want, r.errors, r.stops[:1], text), replay)
         else:
